@@ -138,7 +138,7 @@ func c20exec1(a []string) string {
 	}
 	kind := a[0]
 	switch kind {
-	case "conv", "shift", "evalpt", "getcoeff", "clone", "ser", "cosetnew":
+	case "conv", "shift", "evalpt", "getcoeff", "clone", "ser", "cosetnew", "obj":
 		if len(a) != 10 {
 			return "bad-op"
 		}
@@ -359,6 +359,7 @@ func c20gen(gg *gen) {
 		g.derived(ci)
 		g.polypkg()
 		g.serx(ci)
+		g.obj(ci)
 		g.histories()
 		gg.out.Flush()
 		gg.out = realOut
